@@ -122,6 +122,16 @@ CHECKS['C05'] = dict(
     note='trusted: TLC, Aromatic.tla + Valence.tla; inputs that do not kekulise are skipped (existence clause not evaluated); stereo cleared',
     technique='TLC evaluation of Kekule/aromatic relations (frame conditions, valence interpreter) over recorded conversions',
     design='5/C05')
+CHECKS['C11'] = dict(
+    text='RecordReader.tla models the multi-record readers (position, buffer, tell, damaged records; next / read_structure / read_metadata / seek / '
+         'getitem / tell) and is model checked (iteration returns exactly the undamaged records, random access the requested one); TLC-generated '
+         'behaviours are replayed on real temporary SDF files (five damage kinds, real grep index) and validated by Trace_RecordReader. Round trips '
+         'of molecules and reactions (all role shapes) through SDF / ESDF / RDF / ERDF / MRV with titles, random metadata, charges -4..+4, isotopes, '
+         'radicals, aromatic and coordinate bonds and 2D layouts are validated by Trace_C11 (configuration compared where the written geometry '
+         'shows it: integer cross products in TLC); RDKit mol blocks and the repository\'s test files must be read.',
+    note='trusted: TLC, RecordReader.tla, Trace_C11.tla; RDKit for layouts and as the other program; files with no record are outside the replayed model; RDF reader state machine not modelled separately',
+    technique='TLA+ record-reader state machine model checked + TLC behaviours replayed on real files; TLC validation of recorded format round trips',
+    design='5/C11')
 PENDING = {}
 
 
